@@ -92,13 +92,19 @@ def loggers():
     return [logging.getLogger(name) for name in existing]
 
 
+# control characters are written as \xNN so that no client supplied value
+# (request target, header value, user name) can break a record into lines
+_ATOM_CONTROL_CHARS = {c: "\\x%02x" % c for c in list(range(0x20)) + [0x7f]}
+
+
 class SafeAtoms(dict):
 
     def __init__(self, atoms):
         dict.__init__(self)
         for key, value in atoms.items():
             if isinstance(value, str):
-                self[key] = value.replace('"', '\\"')
+                value = value.replace('"', '\\"')
+                self[key] = value.translate(_ATOM_CONTROL_CHARS)
             else:
                 self[key] = value
 
